@@ -3,7 +3,8 @@
 set -e
 id="$1"; wt="$2"; name="$3"
 d="$(dirname "$0")/../seeded/$name"; mkdir -p "$d"
-git -C "$wt" diff > "$d/patch.diff"
+git -C "$wt" add -N -- src codegen tests 2>/dev/null || true   # so that files the change ADDS are part of the diff
+git -C "$wt" diff -- src codegen tests > "$d/patch.diff"
 cp "$wt/demo_$id.py" "$d/demo_$id.py"
 [ -f "$wt/SEED_NOTES.md" ] && cp "$wt/SEED_NOTES.md" "$d/SEED_NOTES.md"
 echo "collected $name: $(wc -l < "$d/patch.diff") diff lines"
